@@ -4,6 +4,7 @@ import (
 	"fmt"
 	"hash/fnv"
 	"os"
+	"strings"
 	"sync"
 	"testing"
 	"testing/cryptotest"
@@ -43,7 +44,17 @@ func RunBubble(t *testing.T, seed uint64, o BubbleOpts, body func(s *Sched)) (ou
 		simhook.InstallOs(nil)
 		if r := recover(); r != nil {
 			out.BubblePanic = fmt.Sprint(r)
+			if os.Getenv("VERIF_DET") == "2" {
+				fmt.Println("BUBBLEPANIC", firstLine(out.BubblePanic))
+				if os.Getenv("VERIF_DET_FULL") != "" {
+					fmt.Println(out.BubblePanic)
+				}
+			}
 		}
+		// written here so that the end-of-bubble panic (goroutines of a dependency left blocked, e.g.
+		// the workers of a parallel compressor that a failed call did not close: their number follows
+		// GOMAXPROCS) cannot skip it; the panic text itself is not part of the digest
+		detNote(fmt.Sprintf("bubble steps=%d switches=%d hash=%x preempts=%d deadlock=%q crashes=%d sim=%v", out.Steps, out.Switches, out.SwitchHash, out.Preempts, out.Deadlock, len(out.Crashes), out.SimTime))
 	}()
 	heartbeat()
 	cryptotest.SetGlobalRandom(t, seed)
@@ -72,8 +83,14 @@ func RunBubble(t *testing.T, seed uint64, o BubbleOpts, body func(s *Sched)) (ou
 		out.SwitchHash = s.SwitchHash()
 		out.SimTime = time.Since(start)
 	})
-	detNote(fmt.Sprintf("bubble steps=%d switches=%d hash=%x preempts=%d deadlock=%q crashes=%d sim=%v", out.Steps, out.Switches, out.SwitchHash, out.Preempts, out.Deadlock, len(out.Crashes), out.SimTime))
 	return out
+}
+
+func firstLine(s string) string {
+	if i := strings.IndexByte(s, '\n'); i >= 0 {
+		return s[:i]
+	}
+	return s
 }
 
 // determinism self-test: everything that must be a pure function of (seed, case)
